@@ -81,8 +81,9 @@ def gen_case(rng, idx):
         else:
             top = rated
         loads = [float(np.round(rng.uniform(lo, hi), 3)) for _ in range(n)]
-        if rng.random() < 0.5 and isinstance(eng["bsfc"][0], list):
-            loads[0] = eng["bsfc"][int(rng.integers(len(eng["bsfc"])))][0]       # exactly at a given curve point
+        knots = [q[0] for q in eng["bsfc"] if isinstance(q, list) and lo <= q[0] <= hi]
+        if rng.random() < 0.5 and knots:
+            loads[0] = knots[int(rng.integers(len(knots)))]       # exactly at a given curve point (inside what every curve covers)
         if rng.random() < 0.3:
             loads[-1] = 0.0
         if hi > 1.0 and rng.random() < 0.7:
